@@ -1,6 +1,6 @@
 SPECIFICATION TraceSpec
 CONSTANTS MaxSeg = 0
 INVARIANTS TypeOK DataClosed CanonHasHeads CanonLinked CanonEndsAtHead HeadOrder HeadStateAvail LookupComplete LookupSound CacheCoherent
-PROPERTIES RemovedLogsExact AddedLogsComplete AddedLogsNoDup HeadEventIsHead
+PROPERTIES RemovedLogsExact AddedLogsComplete AddedLogsNoDup HeadEventIsHead FlagsRight
 POSTCONDITION TraceAccepted
 CHECK_DEADLOCK FALSE
